@@ -147,3 +147,172 @@ def first_diff(impl_steps, model_steps, compare_snap=True):
             extra = "" if len(st["snap"]) == len(ms) else " (line counts %d vs %d)" % (len(st["snap"]), len(ms))
             return i, "snapshot differs%s: %s" % (extra, d[:3] if d else (st["snap"], ms))
     return None
+
+
+# ---------------------------------------------------------------- running sessions
+ALL_FIXED = {k: True for k in ["fx_direct_all", "fx_redelivered", "fx_delete_checks_first", "fx_noack_total_once", "fx_get_count",
+                               "fx_closeok_releases", "fx_excl_owner", "fx_clear_current", "fx_not_impl", "fx_empty_body",
+                               "fx_discard_closing", "fx_nowait", "fx_stage", "fx_reopen_resets"]}
+
+
+def fixes_term(fx):
+    names = list(ALL_FIXED.keys())
+    return "{| " + "; ".join("%s := %s" % (n, "true" if fx.get(n) else "false") for n in names) + " |}"
+
+
+def parse_stream(text):
+    """Parse the JSON-lines stream of `broker gen` into sessions. A session cut short by a crash of the
+    broker process keeps the op that was about to run in s['crashed_at']."""
+    sessions, cur = [], None
+    for line in text.splitlines():
+        line = line.strip()
+        if not line.startswith("{"):
+            continue
+        try:
+            o = json.loads(line)
+        except Exception:
+            continue
+        if "session" in o:
+            cur = dict(id=o["session"], cfg=o["cfg"], kind=o["kind"], steps=[], about=None, ended=False, dist={})
+            sessions.append(cur)
+        elif cur is None:
+            continue
+        elif "about" in o:
+            cur["about"] = o["about"]
+        elif "step" in o:
+            cur["steps"].append(o["step"])
+            cur["about"] = None
+        elif "end" in o:
+            cur["ended"] = True
+            cur["dist"] = o.get("dist", {})
+    for s in sessions:
+        if not s["ended"]:
+            s["crashed_at"] = s["about"]
+    return sessions
+
+
+def gen_sessions(exe, seed, n, steps, kind="exact", rabbit=-1, engine="", procs=12, settle=0):
+    """Run n generated sessions split over several broker processes (a broker panic kills only its process)."""
+    work = os.path.join(vlib.WORK, "broker-%d" % os.getpid())
+    os.makedirs(work, exist_ok=True)
+    per = max(1, (n + procs - 1) // procs)
+    jobs = []
+    for first in range(0, n, per):
+        cnt = min(per, n - first)
+        cmd = [exe, "gen", "-seed", str(seed), "-first", str(first), "-n", str(cnt), "-steps", str(steps), "-kind", kind,
+               "-work", work, "-rabbit", str(rabbit), "-engine", engine, "-settle", str(settle)]
+        jobs.append((first, cnt, subprocess.Popen(cmd, stdout=subprocess.PIPE, stderr=subprocess.PIPE, text=True)))
+    sessions = []
+    crashes = []
+    for first, cnt, p in jobs:
+        try:
+            out, err = p.communicate(timeout=600)
+        except subprocess.TimeoutExpired:
+            p.kill()
+            out, err = p.communicate()
+            err += "\nHARNESS TIMEOUT"
+        ss = parse_stream(out)
+        sessions += ss
+        if p.returncode != 0:
+            crashes.append(dict(first=first, count=cnt, rc=p.returncode, stderr=err[-3000:],
+                                session=ss[-1] if ss else None))
+    import shutil
+    shutil.rmtree(work, ignore_errors=True)
+    return sessions, crashes
+
+
+def replay_script(exe, cfg, ops, settle=0):
+    work = os.path.join(vlib.WORK, "broker-replay-%d" % os.getpid())
+    os.makedirs(work, exist_ok=True)
+    p = subprocess.run([exe, "replay", "-rabbit=%s" % ("true" if cfg.get("rabbit") else "false"), "-engine", cfg.get("engine", "buntdb"),
+                        "-work", work, "-settle", str(settle)], input="\n".join(ops) + "\n", capture_output=True, text=True, timeout=300)
+    import shutil
+    shutil.rmtree(work, ignore_errors=True)
+    if p.returncode != 0:
+        return None, p.stderr[-3000:]
+    return json.loads(p.stdout), ""
+
+
+def model_cfg_fx(se, fx=None):
+    cfg = "{| cfg_rabbit := %s; cfg_rollback := true; cfg_release_first := false |}" % ("true" if se["cfg"].get("rabbit") else "false")
+    return cfg, fixes_term(fx or ALL_FIXED)
+
+
+# ---------------------------------------------------------------- extracted model runner
+_OCAML = {}
+
+
+def build_ocaml_model():
+    """Extract the runner from the compiled development and build the OCaml driver (once per check run)."""
+    if "exe" in _OCAML:
+        return _OCAML["exe"]
+    out = os.path.join(vlib.WORK, "ocaml-%d" % os.getpid())
+    p = vlib.sh(["bash", os.path.join(vlib.VERIF, "ocaml", "build.sh"), out], timeout=900)
+    if p.returncode != 0:
+        raise vlib.Infra("extraction / ocaml build failed:\n" + (p.stdout + p.stderr)[-3000:])
+    _OCAML["exe"] = os.path.join(out, "brokermodel")
+    _OCAML["dir"] = out
+    return _OCAML["exe"]
+
+
+def cleanup_ocaml():
+    import shutil
+    if "dir" in _OCAML:
+        shutil.rmtree(_OCAML["dir"], ignore_errors=True)
+        _OCAML.clear()
+
+
+def fx_bits(fx):
+    return "".join("1" if fx.get(n) else "0" for n in ALL_FIXED.keys())
+
+
+def eval_sessions_ocaml(sessions, fx=None):
+    """Model predictions [(frames, snap)] per session, computed by the extracted runner."""
+    exe = build_ocaml_model()
+    fx = fx or ALL_FIXED
+    lines = []
+    for se in sessions:
+        lines.append("SESSION %s 1 %s" % ("1" if se["cfg"].get("rabbit") else "0", fx_bits(fx)))
+        lines += [st["op"] for st in se["steps"]]
+        lines.append("END")
+    p = subprocess.run([exe], input="\n".join(lines) + "\n", capture_output=True, text=True, timeout=900)
+    if p.returncode != 0:
+        raise vlib.Infra("extracted model runner failed: " + p.stderr[-2000:])
+    results, cur, step = [], None, None
+    for l in p.stdout.splitlines():
+        if l == "STEP":
+            if cur is None:
+                cur = []
+            step = ([], [])
+            cur.append(step)
+        elif l.startswith("F "):
+            step[0].append(l[2:])
+        elif l.startswith("S "):
+            step[1].append(l[2:])
+        elif l == "ENDSESSION":
+            results.append(cur or [])
+            cur = None
+    if len(results) != len(sessions):
+        raise vlib.Infra("extracted runner returned %d sessions for %d" % (len(results), len(sessions)))
+    return results
+
+
+def eval_sessions_coq(sessions, fx=None, tag="brokercoq"):
+    """The same predictions computed inside Coq (vm_compute) - used on a sample to keep the extraction honest."""
+    fx = fx or ALL_FIXED
+    parts = ["From Coq Require Import List String NArith.", "Import ListNotations.",
+             "From GMQ Require Import Broker.Model Run.BrokerRun Run.BrokerScript.",
+             "Open Scope string_scope.", "Set Printing Width 1000000.", "Set Printing Depth 10000000."]
+    for i, se in enumerate(sessions):
+        cfgt, fxt = model_cfg_fx(se, fx)
+        ops = "[" + "; ".join('"%s"' % st["op"] for st in se["steps"]) + "]"
+        parts.append("Definition R%d := Eval vm_compute in run_text_session %s %s %s." % (i, cfgt, fxt, ops))
+        parts.append("Print R%d." % i)
+    out = vlib.coq_eval(tag, "\n".join(parts) + "\n")
+    results = []
+    for i in range(len(sessions)):
+        m = re.search(r"R%d =\s*(.*?)\n\s*:\s*list \(list string \* list string\)" % i, out, re.S)
+        if not m:
+            raise vlib.Infra("no result for session %d in coq output" % i)
+        results.append([(list(a), list(b)) for a, b in parse_coq_value(m.group(1))])
+    return results
